@@ -10,7 +10,7 @@ EXPLANATION = (
     "control-flow graph give the order for streams of any length; the Action::consume table, the single construction site of "
     "State::Complete and its path condition; load_bytes/load_words and parse_bytes/parse_words evaluated with the parse failing and "
     "succeeding.")
-EXHAUSTIVE = True
+EXHAUSTIVE = False     # the abstract inputs are a stated finite scope, not the whole input space
 
 PAR = "rspirv::binary::parser"
 CB = ("initialize", "consume_header", "consume_instruction", "finalize")
